@@ -67,6 +67,90 @@ add('C18', 'proof', 'Lean 4 theorems about an executable model of the JSON-lines
     'json.loads is external (each line carries its token, supplied by the harness from the real json.loads); Unicode '
     'whitespace is outside the generator (ASCII).')
 
+add('C15', 'proof', 'Lean 4 theorems (all sizes, all ordered pairs) about executable lattice models + all-pairs correspondence',
+    'For the planar, toric and rotated-toric families, for EVERY lattice size and every ordered pair of same-type plaquettes '
+    '(real, boundary-virtual on the planar code, arbitrary integers reduced modulo the lattice on the tori): the path operator '
+    'anticommutes with a stabilizer generator iff that generator is exactly one of the two endpoints (nothing when they '
+    'coincide), as a single generator and as the full syndrome vector; weight = decoder distance; translation reaches b, is '
+    'the shortest residue with the code\'s tie-break, has symmetric length and raises exactly on mixed types; plaquette '
+    'support; syndrome-bit round trip; plaquette index list = in-lattice plaquettes once each in the code\'s order — 51 Lean '
+    'theorems. Tied to the code by exact comparison of path / translation / distance / virtual plaquette / support / '
+    'syndrome-index maps for all sizes up to the bound and all pairs (sampled above a budget in the quick tier), plus the '
+    'property evaluated directly on the real code for every pair.',
+    TB + 'Modelled rather than verified: planar/_planarcode.py, _planarpauli.py, toric/_toriccode.py, _toricpauli.py, '
+    'rotatedtoric/_rotatedtoriccode.py, _rotatedtoricpauli.py and the decoders\' distance functions.')
+add('C07', 'proof', 'Lean 4 theorems (ValidCode for all R,C; basic codes by kernel evaluation) + all-sizes-up-to-bound matrix correspondence and direct rank/commutation monitors',
+    'A generic, dimension-theory-free definition ValidCode n k S Lx Lz (row lengths, commutation, canonical pairing, rank n-k '
+    'as an independent spanning sub-family, logical independence) with independence-from-destabiliser and '
+    'independence-from-pairing lemmas; proved for the planar family for ALL R, C >= 2 (flatten bijection onto [0,n), n and '
+    'stabilizer count formulas, commutation, pairing, rank via explicit destabilisers, constructor domain over a Python value '
+    'universe, site/plaquette read-back) and for the five-qubit and Steane codes by kernel evaluation. For the toric, '
+    'rotated-planar, rotated-toric and colour 6.6.6 families the theorems are not yet proved: there the claim rests on the '
+    'explored part — exact equality of stabilizers / logicals / n_k_d / index maps / constructor outcomes with the executable '
+    'Lean models for every size up to the bound, and C07 itself (commutation, pairing, GF(2) rank n-k by elimination, logical '
+    'independence) evaluated directly on the real matrices for every such size.',
+    TB + 'Modelled rather than verified: the code and pauli classes of all five lattice families and models/basic.py. '
+    'Only planar + basic codes have the all-sizes theorem; other families are bounded exploration (evidence: explored).')
+add('C13', 'proof', 'Lean 4 theorems about the graph wrapper and a verified exact minimum-weight-perfect-matching oracle + real mwpm output checked against the oracle',
+    'SimpleGraph.add_edge (no pair in both orientations, last write wins), the networkx wrapper (empty graph, weight negation, '
+    'max-cardinality: among perfect matchings maximising the negated weight = minimising the weight; with a perfect matching '
+    'present every maximum-cardinality matching is perfect), a matching checker (true iff every node is covered exactly once '
+    'by graph edges) and an exact optimum minPM (= the minimum over all perfect matchings, none iff there is none) are Lean '
+    'theorems for all finite graphs and rational weights. Edmonds\' algorithm inside networkx is outside /repo and is NOT '
+    'modelled: on every run the real gt.mwpm output (planted random graphs, exhaustive 4-node weight classes, graphs '
+    'captured from the five MWPM decoders) is checked by the verified checker and its exact weight compared with minPM.',
+    TB + 'networkx max_weight_matching is trusted only through the per-run comparison with the verified optimum; Blossom V '
+    'C library absent (networkx backend only).')
+add('C17', 'proof', 'Lean 4 theorems about an inverse-CDF stream model + bit-exact prediction of every generated error and flip from a twin generator',
+    'With the generator abstracted as a stream of uniforms consumed left to right: the error has 2n bits, qubit i depends on '
+    'uniform i only, the preimage of each Pauli is the half-open interval between consecutive cumulative probabilities (so '
+    'its length is the stated probability and a zero-probability Pauli is never produced), X sets bit i / Z bit n+i / Y '
+    'both, measurement flips are set iff u >= 1-q (never at q=0 with no draws, always at q=1), default q, and the order of '
+    'consumption across steps and runs — 22 Lean theorems for all n, distributions and streams. Tied to the code by '
+    'predicting bit-for-bit every error generated by every IID model (n = 4..400) and every flip pattern received by a '
+    'recording FTP decoder from a twin numpy generator; numpy choice = searchsorted on the normalised cumsum is re-checked '
+    'on every run. Uniformity/independence of PCG64 is trusted; a chi-square test is reported as supporting test only.',
+    TB + 'numpy Generator.choice consumption contract re-validated each run; PCG64 statistical quality trusted.')
+add('C12', 'proof', 'Lean 4 theorems about a shape/control-flow model of the MPS sweeps (singular values as oracle input) + exact shape correspondence and numeric contract monitors',
+    'Contiguity errors, QR-vs-SVD choice by mask, kept rank <= chi and <= min(rows, cols), mask reversal in the right '
+    'canonical form, truncate is the identity exactly when its guard says so, zero detection gives zeros_like with norm 0 and '
+    'no later division, output bonds are consistent and <= chi after truncate — Lean theorems for all lengths, dimensions '
+    'and oracle singular-value lists. The numeric clauses (isometry, state preservation, unit norm, truncation error <= '
+    'discarded weight, no NaN) depend on LAPACK and floating point and are NOT theorems: they are evaluated with tolerances '
+    'on the real outputs of every generated case (counts in evidence: explored).',
+    TB + 'scipy/LAPACK QR and SVD are oracles (their outputs are recorded by wrapping them from the harness); numeric '
+    'contracts are explored, not proved.')
+add('C11', 'proof', 'Lean 4 theorems (interchange law, associativity, sweep = merged grid tensor) over any commutative semiring + exact integer-network correspondence',
+    'The pairwise cell and the ladder step are modelled as compositions of 4-leg tensors; the interchange law, associativity '
+    'of the cell, ladder-of-pairwise, and hence: left-to-right sweep = right-to-left sweep = every split-and-recombine = '
+    'transposed network = the merged grid tensor, are Lean theorems over any commutative semiring for all network shapes and '
+    'compatible bond dimensions; the executed array model is bridged to the algebra entry-wise; no-op truncation settings are '
+    'the identity; the error cases raise. The last link (merged grid tensor = literal sum over all bond-index assignments) is '
+    'stated but not proved — the brute-force sum is instead compared with the real contraction on every run. Tied to the '
+    'code by exact integer networks (numpy stays in integers) through every start/stop/step, split point and transpose.',
+    TB + 'Modelled rather than verified: tensortools/mps2d.py contract/transpose, mps.py contract_pairwise/contract_ladder/'
+    'inner_product/truncate guard, tsr.py as_scalar. The truncating SVD path is outside the property.')
+add('C16', 'proof', 'Lean 4 theorems over Q (and R for the square-root model) about rational error-model distributions + float-vs-exact correspondence',
+    'Non-negativity, sum 1, Pr(I) = 1-p, documented shapes (thirds; high = bias x sum of lows; Y:X = bias with the defining '
+    'equations and uniqueness of their non-negative solution, over Q with an explicit root and over R with Real.sqrt), '
+    'centre-slice ratio on the segment, negative limit on the triangle boundary, special cases and constructor domains — 36 '
+    'Lean theorems for all p in [0,1] and all accepted parameters. The float evaluation is NOT proved: on every run the real '
+    'probability_distribution floats are compared with the exact rational model at the rational value of the float inputs '
+    '(1e-12 relative) or substituted into the defining equations by the Lean checker, on wide grids incl. endpoints and '
+    'extreme biases, and the property is evaluated directly on the floats (strict non-negativity). Five genuine defects found '
+    'this way were repaired in /repo (fix: commits, see known_findings.json).',
+    TB + 'IEEE-754 evaluation of the closed forms is explored on grids, not proved.')
+add('C14', 'proof', 'Lean 4 theorems about the naive decoder (min weight, corrects total weight <= t) and the MWPM X/Z split + exhaustive sweep of correctable errors through the real decoders',
+    'Proved for any code: the naive decoder is exactly the first match in ibsf order, returns a minimum-weight solution, '
+    'returns None iff no Pauli has the syndrome, and corrects every error of TOTAL weight <= t under the distance hypothesis '
+    '(discharged in the kernel for the five-qubit and Steane codes); the per-component form of the property is provably '
+    'false for it (known finding D5, theorem naive_mixed_support_counterexample). For the planar / toric MWPM decoders the '
+    'X/Z split and the reduction "minimum matching + chain bound => corrected" are theorems with the C02/C07/C08/C13/C15 '
+    'facts as explicit hypotheses; chain_induces_matching is stated, not proved, so the MWPM clause itself rests on the '
+    'explored part: every error with |X|,|Z| <= t on planar and toric 2x2..4x5 (exhaustive) and samples to 7x7 through the '
+    'real decoders, verdict confirmed by the Lean driver and a span certificate.',
+    TB + 'networkx matching inside the decoders is not modelled (see C13).')
+
 NOT_YET = {}
 
 
